@@ -86,19 +86,26 @@ def patterns(depth):
                 seen.add(c)
                 new.append(c)
         levels.append(new)
-    return [p for lv in levels for p in lv] + ["", "(?:)", "a|", "[^ab]", r"[\d_]+", r"(?:a|b)*c"], transitions
+    sharp = [
+        "", "(?:)", "a|", "[^ab]", r"[\d_]+", r"(?:a|b)*c",
+        # loops that re-enter an earlier non-final state; several symbol classes into one successor
+        "(?:ab)*ac", "(?:a|b)*abb", "b(?:ab)*ac", "(?:a[^b])*ac", "a(?:ba)*c", "(?:ab|ac)*a", "(?:a(?:bc)*)*b", "(?:ab)*(?:ac)*b", "(?:aa|b)*ab",
+        "[a-c][a-c1]*", "[^a]b", "[ab][bc]", "(?:a|[^a])b", "[^a][^b][^c]", ".[^a]", "(?:a|b|c)(?:a|b)", "a{2,3}b", "(?:ab){2}c?", "(?:a|ab)(?:c|bcd)?",
+    ]
+    return [p for lv in levels for p in lv], sharp, transitions
 
 
 def plan(tier, seed):
     global TIER
     TIER = tier
     p = cfgp()
-    pats, tr = patterns(p["depth"])
-    if tier != "thorough":
-        pass
+    pats, sharp, tr = patterns(p["depth"])
     cases = []
     for i in range(0, len(pats), 8):
         cases.append({"patterns": pats[i : i + 8]})
+    for i in range(0, len(sharp), 3):
+        cases.append({"patterns": sharp[i : i + 3], "extra_len": 2})  # sharp patterns: strings two characters longer
+    pats = pats + sharp
     return {
         "cases": cases,
         "states": len(pats),
@@ -182,7 +189,7 @@ def run_case(case):
                 fails.append(_fail("every arc is labelled by a single character", inp0, bad_labels[:3], "single characters"))
             total = 0.0
             nm = nr = 0
-            for n in range(p["strlen"][cname] + 1):
+            for n in range(p["strlen"][cname] + (case.get("extra_len", 0) if cname != "mixed" else 0) + 1):
                 for tup in itertools.product(cs, repeat=n):
                     s = "".join(tup)
                     w = weight(data, s)
